@@ -1,8 +1,55 @@
-/- Driver handlers for area `b64` (stub: replace `handle`). -/
+/- Driver handlers for area `b64` (C17): spec.Base64Bytes Encode / Decode / MarshalJSON / UnmarshalJSON. -/
 import VDriver.Util
+import VModel.B64
 namespace V.Driver.B64Ops
-open V V.Driver
+open V V.Driver V.B64
 
-def handle (_op : String) (_args : Array String) : Option String := none
+def showOpt : Option BS → String
+  | some b => "ok:" ++ hex b
+  | none => "err"
+
+/-- ops (hex arguments):
+    decode <text>      Base64Bytes.Decode            ok:<bytes> | err     spec: bit-string reading, or unspecified
+    encode <bytes>     Base64Bytes.Encode            ok:<text>            spec: bit-string encoder (standard alphabet)
+    reenc <text>       Decode, Encode, Decode again  ok:<bytes>:<text>:<same|differs> | err
+                                                     spec: the second decoding gives the same value
+    unmarshal <raw>    Base64Bytes.UnmarshalJSON     ok:<bytes> | err
+    marshal <bytes>    Base64Bytes.MarshalJSON       ok:<raw>
+-/
+def handle (op : String) (args : Array String) : Option String :=
+  match op, args.toList with
+  | "decode", [h] =>
+    match unhex h with
+    | none => some "bad-op"
+    | some s =>
+      let sp := if Spec.specified s then showOpt (Spec.decode s) else "unspecified:not-over-one-unpadded-alphabet"
+      some (showOpt (decode s) ++ "\t" ++ sp)
+  | "encode", [h] =>
+    match unhex h with
+    | none => some "bad-op"
+    | some b => some ("ok:" ++ hex (encode b) ++ "\t" ++ "ok:" ++ hex (Spec.encodeBits stdAlphabet b))
+  | "reenc", [h] =>
+    match unhex h with
+    | none => some "bad-op"
+    | some s =>
+      let m := match decode s with
+        | none => "err"
+        | some b =>
+          let t := encode b
+          "ok:" ++ hex b ++ ":" ++ hex t ++ ":" ++ (if decode t == some b then "same" else "differs")
+      let sp := if !Spec.specified s then "unspecified:not-over-one-unpadded-alphabet" else
+        match Spec.decode s with
+        | none => "err"
+        | some b => "ok:" ++ hex b ++ ":" ++ hex (Spec.encodeBits stdAlphabet b) ++ ":same"
+      some (m ++ "\t" ++ sp)
+  | "unmarshal", [h] =>
+    match unhex h with
+    | none => some "bad-op"
+    | some raw => some (showOpt (unmarshalJSON raw))
+  | "marshal", [h] =>
+    match unhex h with
+    | none => some "bad-op"
+    | some b => some ("ok:" ++ hex (marshalJSON b))
+  | _, _ => none
 
 end V.Driver.B64Ops
